@@ -213,8 +213,10 @@ where
         //
         let counter = HashMap::<u64, u64>::new();
         //
-        let mut rng = ThreadRng::default();
-        let seed = rng.next_u64();
+        let rng = ThreadRng::default();
+        // fixed default seed so that sketchers built with the same parameters give the same signatures.
+        // (change_rng_seed is there to vary it)
+        let seed = 0x6a09e667f3bcc909_u64;
         //
         ProbOrdMinHash2 {
             m,
